@@ -10,6 +10,22 @@ import (
 	"github.com/pkg/errors"
 )
 
+// targetBitsAreValid returns false when the compact target bits of a header don't encode a positive
+// target with a full three byte mantissa: a negative or zero mantissa, or a size below the size of
+// the mantissa. The difficulty and work conversion functions don't support those (some of them
+// panic), and no header with such bits can have valid proof of work.
+func targetBitsAreValid(bits uint32) bool {
+	if bits&0x00800000 != 0 {
+		return false // negative
+	}
+
+	if bits&0x007fffff == 0 {
+		return false // zero
+	}
+
+	return (bits >> 24) >= 3
+}
+
 func (b Branch) Target(ctx context.Context, height int) (*big.Int, error) {
 
 	// NOTE: Assume 2017 difficulty adjustment is active --ce
